@@ -956,7 +956,8 @@ func (w *worker) Run(ctx context.Context, req taskRunRequest, reply *taskRunRepl
 		if err != nil && err != sliceio.EOF {
 			return maybeTaskFatalErr{err}
 		}
-		return nil
+		// Fall through to commit the (empty) partitions, so that the
+		// task's output can be opened like any other.
 	case task.NumPartition > 1:
 		var psize = (*defaultChunksize + 99) / 100
 		var (
